@@ -319,6 +319,7 @@ class ExprMixin:
             return None
         if not all(isinstance(x, (VSeq, VInt, VReal, VBool)) for x in (a, b)):
             return None
+        self.used_trusted.add("model:elementwise arithmetic of numeric tensors / arrays with broadcasting of scalars and one-element operands")
         if ta and tb:
             same = z3.Or(a.len == b.len, a.len == 1, b.len == 1)
             self.safety(st, "tensor:broadcastable", same, node, "elementwise operands have equal lengths or one of them has length one")
